@@ -76,7 +76,11 @@ class RaiseProxy:
     def __init__(self, inner, where, k=2): self.inner = inner; self.where = where; self.k = k; self.c = 0
     @property
     def params(self): return self.inner.params
-    def score(self, *a): return self.inner.score(*a)
+    def score(self, *a):
+        if self.where == "predict":      # an evaluator that only asks for scores (RejectionCB) meets the failure there
+            self.c += 1
+            if self.c >= self.k: raise RuntimeError("learner fails in score #%d" % self.c)
+        return self.inner.score(*a)
     def predict(self, context, actions):
         if self.where == "predict":
             self.c += 1
@@ -127,6 +131,61 @@ class VEval:
             yield row
 
 
+class VRej:
+    """The built-in RejectionCB (no cinit: its initial multiplier is estimated from the data of each evaluation) behind the
+    same side channel / fail set as VEval.  ONE RejectionCB object lives in the evaluator, exactly as when a user lists a
+    RejectionCB() in several triples: in-process every task sees that object, a worker sees a copy."""
+    def __init__(self, vid, fail=(), side=None, where="start"):
+        from coba.evaluators import RejectionCB
+        self.vid = vid; self.fail = [tuple(f) for f in fail]; self.side = side; self.where = where
+        self.inner = RejectionCB(record=["reward", "action", "probability"])
+
+    @property
+    def params(self): return {"vid": self.vid, "kind": "rejection"}
+
+    def evaluate(self, environment, learner):
+        eid = environment.params.get("eid"); lid = learner.params.get("lid")
+        if self.side:
+            with open(self.side, "a") as f: f.write(json.dumps([eid, lid, self.vid]) + "\n")
+        failing = (eid, lid, self.vid) in self.fail
+        if failing and self.where == "start": raise RuntimeError("evaluator fails for %s" % ((eid, lid, self.vid),))
+        if failing and self.where in ("predict", "learn"): learner = RaiseProxy(learner, self.where)
+        n = 0
+        for row in self.inner.evaluate(environment, learner):
+            n += 1
+            if failing and self.where == "middle" and n == 3: raise RuntimeError("evaluation of %s fails after 2 rows" % ((eid, lid, self.vid),))
+            row["vid"] = self.vid
+            yield row
+
+
+class Tagged:
+    """A built-in learner with the `lid` label the comparisons key on; everything else is the learner's own."""
+    def __init__(self, lid, inner): self.lid = lid; self.inner = inner
+    @property
+    def params(self): return dict(self.inner.params, lid=self.lid)
+    def score(self, *a, **k): return self.inner.score(*a, **k)
+    def predict(self, *a, **k): return self.inner.predict(*a, **k)
+    def learn(self, *a, **k): return self.inner.learn(*a, **k)
+
+
+def builtin_learner(lid, kind):
+    from coba import learners as L
+    if kind == "eps": inner = L.BanditEpsilonLearner(0.2)
+    elif kind == "ucb": inner = L.BanditUCBLearner()
+    elif kind == "random": inner = L.RandomLearner()
+    elif kind == "corral": inner = L.CorralLearner([L.BanditEpsilonLearner(0.1), L.RandomLearner()], eta=0.1)
+    elif kind == "misguided": inner = L.MisguidedLearner(L.BanditEpsilonLearner(0.1), 1, -1)
+    else: raise ValueError(kind)
+    return Tagged(lid, inner)
+
+
+# shapes realised with built-in components: one RejectionCB object evaluating logged environments whose logging probabilities
+# differ (5 / 2 / 3 actions), and the built-in bandit learners (their own generators, Corral's base learners, Misguided's wrapping)
+BUILTIN_SHAPES = [
+    dict(tr=[(0, 0, 0), (1, 0, 0), (1, 1, 0), (2, 1, 0)], ch=[0, 0, 0], fail=[], rej=[0], nact={0: 5, 1: 2, 2: 3}, n_int=40, lk={1: "eps"}, seed=2),
+    dict(tr=[(0, 0, 0), (1, 0, 0), (0, 1, 0), (1, 2, 0)], ch=[1, 1], fail=[], lk={0: "corral", 1: "ucb", 2: "misguided"}),
+]
+
 RECORDS = [("reward", "action", "probability"), ("reward",), ("reward", "action", "probability", "context")]
 MODES = ["pmf", "action", "ap", "pmf"]
 
@@ -137,22 +196,33 @@ def build(shape, side=None, n_int=6, variant=0, where=None):
     tr = [tuple(t) for t in shape["tr"]]; ch = list(shape["ch"]); fail = [tuple(f) for f in shape.get("fail", [])]
     batched = set(shape.get("batch", []))       # environments delivered in batches of 2 (the same learner class then sees both kinds)
     ne = max(t[0] for t in tr) + 1; nl = max(t[1] for t in tr) + 1; nv = max(t[2] for t in tr) + 1
+    n_int = shape.get("n_int", n_int)
+    nact = {int(k): v for k, v in shape.get("nact", {}).items()}      # actions per environment (default 3)
+    rej = set(shape.get("rej", []))                                     # evaluator ids that are RejectionCB based
+    lk = {int(k): v for k, v in shape.get("lk", {}).items()}           # learner ids that are built-in learners
+    logged = set(shape.get("logged", [])) | ({t[0] for t in tr if t[2] in rej})   # environments delivered as logged data
+    def fin(ee, e):
+        if e in logged:
+            from coba.learners import RandomLearner
+            ee = ee.logged(RandomLearner(), seed=5 + e)
+        ee = ee.shuffle(seed=e).params({"eid": e})
+        return (ee.batch(2) if e in batched else ee)[0]
     envs = {}
     bycls = {}
     for e in range(ne):
         c = ch[e] if e < len(ch) else 0
         if c == 0:
-            ee = Environments.from_linear_synthetic(n_int, n_actions=3, n_context_features=2, n_action_features=2, seed=11 + e + variant).shuffle(seed=e).params({"eid": e})
-            envs[e] = (ee.batch(2) if e in batched else ee)[0]
+            envs[e] = fin(Environments.from_linear_synthetic(n_int, n_actions=nact.get(e, 3), n_context_features=2, n_action_features=2, seed=11 + e + variant), e)
         else:
             bycls.setdefault(c, []).append(e)
     for c, es in bycls.items():
-        base = Environments.from_linear_synthetic(n_int, n_actions=3, n_context_features=2, n_action_features=2, seed=31 + c + variant).chunk()
+        base = Environments.from_linear_synthetic(n_int, n_actions=nact.get(es[0], 3), n_context_features=2, n_action_features=2, seed=31 + c + variant).chunk()
         for e in es:
-            ee = base.shuffle(seed=e).params({"eid": e})
-            envs[e] = (ee.batch(2) if e in batched else ee)[0]
-    lrns = {l: HistLearner(l, MODES[(l + variant) % len(MODES)], kw=((l + variant) % 2 == 1), info=((l + variant) % 2 == 0)) for l in range(nl)}
-    vals = {v: VEval(v, RECORDS[(v + variant) % len(RECORDS)], fail=fail, side=side, where=(where or ("start" if v % 2 else "middle")), plain=(v % 2 == 1)) for v in range(nv)}
+            envs[e] = fin(base, e)
+    lrns = {l: (builtin_learner(l, lk[l]) if l in lk else
+                HistLearner(l, MODES[(l + variant) % len(MODES)], kw=((l + variant) % 2 == 1), info=((l + variant) % 2 == 0))) for l in range(nl)}
+    vals = {v: (VRej(v, fail=fail, side=side, where=(where or "start")) if v in rej else
+                VEval(v, RECORDS[(v + variant) % len(RECORDS)], fail=fail, side=side, where=(where or ("start" if v % 2 else "middle")), plain=(v % 2 == 1))) for v in range(nv)}
     return [(envs[e], lrns[l], vals[v]) for (e, l, v) in tr]
 
 
